@@ -81,6 +81,7 @@ pub fn family(th: bool) -> Vec<(String, Envelope)> {
     // wide / deep boundary shapes
     for (wn, m) in families::wide_all(th) { if let Ok(e) = catch(|| bind::build(&m, 0)) { out.push((format!("wide:{wn}"), e)) } }
     // decode-only shapes
+    for (i, m) in families::valued().iter().enumerate() { if let Ok(e) = catch(|| bind::build(m, 0)) { out.push((format!("valued{i}:{}", m.show()), e)) } }
     for (i, m) in families::decode_only().iter().chain(families::nsn().iter()).enumerate() { out.push((format!("decode-only{i}:{}", m.show()), bind::build_route(m, bind::Route::Decode))) }
     // envelopes ACCEPTED by the decoder from the structural mutation family of C06 (adversarially decoded ones)
     let mut seen: HashSet<Vec<u8>> = HashSet::new();
